@@ -256,3 +256,15 @@ class RepMetaTask(Task):
 
     def execute(self):
         print(self.x)  # noqa: T201
+
+
+# ---- tagged values (bounded/extra.py)
+class TgCfg(Config):
+    f: Param[float]
+    i: Param[int]
+    s: Param[str] = "x"
+
+
+class TgOuter(Config):
+    inner: Param[TgCfg]
+    k: Param[int] = 0
